@@ -191,7 +191,10 @@ def sample_task(task):
         name = x.value
         ls = text.rfind("\n", 0, a) + 1
         head = text[ls:a].replace(" ", "").replace("\t", "")
-        if head.startswith(("#include", "#import", "#pragma", "#error", "#warning")) or head == "#":
+        rest_of_line = text[ls:text.find("\n", ls) if text.find("\n", ls) != -1 else len(text)].replace(" ", "").replace("\t", "")
+        computed = head.startswith(("#include", "#import")) and not rest_of_line[len("#include"):].lstrip("e").startswith(("<", '"')) \
+            and head not in ("#",) and head.rstrip() in ("#include", "#import")
+        if (head.startswith(("#include", "#import", "#pragma", "#error", "#warning")) and not computed) or head == "#":
             occ.setdefault(name, None)          # a directive name or part of an include path: never renamed
             occ[name] = None
             continue
@@ -269,7 +272,13 @@ def collision_files():
     hkh = header42.header_text("kinds.h") + "\n"
     f = (hkh + "#ifndef KINDS_H\n# define KINDS_H\n\n# define TAB 9\n# define STRING \"s\"\n# define RBRACE 125\n\n"
          "int\t\tft_kind(int tab, int space, int newline);\n\n#endif\n")
-    return [("collide.c", a), ("collide.h", b), ("frag.h", c), ("frag.c", d), ("kinds.c", e), ("kinds.h", f)]
+    # a macro as the argument of a directive (a computed include is fatal for the tool today, whatever the macro is
+    # called: it must stay so for every spelling), and macros used in #if / #ifdef / #undef
+    hm = header42.header_text("macro.c") + "\n"
+    g = hm + "#include FT_CONFIG_H\n\nint\tmain(void)\n{\n\treturn (0);\n}\n"
+    g2 = (hm + "#ifdef FT_DEBUG_H\n# define FT_LEVEL_H 2\n#else\n# define FT_LEVEL_H 0\n#endif\n#if FT_LEVEL_H > 1 && defined(FT_TRACE_H)\n# undef FT_TRACE_H\n#endif\n\n"
+          "int\tmain(void)\n{\n\treturn (FT_LEVEL_H);\n}\n")
+    return [("collide.c", a), ("collide.h", b), ("frag.h", c), ("frag.c", d), ("kinds.c", e), ("kinds.h", f), ("macro.c", g), ("macro.c", g2)]
 
 
 def run(tier, seed):
